@@ -76,4 +76,39 @@ theorem splitLines_newline_style (s : Bytes) (h : 13 ∉ s) :
   simp only [splitLines_eq_go]
   exact ⟨go_toCRLF [] s h, go_toCR [] s h⟩
 
+/-! ## newline normalisation (what `_parse_file` hands to `tokenize` since /repo 1cb0176, and what the parser does itself) -/
+
+/-- `data.replace(b"\\r\\n", b"\\n").replace(b"\\r", b"\\n")` -/
+def normNl : Bytes → Bytes
+  | [] => []
+  | 13 :: 10 :: r => 10 :: normNl r
+  | 13 :: r => 10 :: normNl r
+  | b :: r => b :: normNl r
+
+theorem normNl_other (b : Nat) (r : Bytes) (h : b ≠ 13) : normNl (b :: r) = b :: normNl r := by
+  rw [normNl]
+  · intro r' hb _; exact h hb
+  · intro hb; exact h hb
+
+theorem go_normNl (s : Bytes) : ∀ cur, splitLines.go cur (normNl s) = splitLines.go cur s := by
+  induction s using normNl.induct with
+  | case1 => intro cur; rfl
+  | case2 r ih => intro cur; simp only [normNl, splitLines.go, ih]
+  | case3 r h ih =>
+    intro cur
+    rw [normNl]
+    · simp only [splitLines.go, ih]
+    · exact h
+  | case4 b r h1 h2 ih =>
+    intro cur
+    have hb : b ≠ 13 := fun e => h2 e
+    rw [normNl_other b r hb]
+    by_cases h10 : b = 10
+    · subst h10; simp only [splitLines.go, ih]
+    · rw [go_other _ _ _ h10 hb, go_other _ _ _ h10 hb, ih]
+
+/-- `bytes.splitlines()` does not care whether the line ends were normalised first: the lines `loc` is counted over are the parser's lines -/
+theorem splitLines_normNl (s : Bytes) : splitLines (normNl s) = splitLines s := by
+  rw [splitLines_eq_go, splitLines_eq_go]; exact go_normNl s []
+
 end Bandit.Metrics
